@@ -464,3 +464,51 @@ pub fn replay_parse_file(path: &str) -> J {
     }
     json!({"behaviours": n, "distinct_nontrivial": nontrivial, "mismatches": mismatches, "samples": samples})
 }
+
+/// Replay MC_Values behaviours: the verdict of every (expected, output) pair through the real API.
+pub fn replay_verdict_file(path: &str) -> J {
+    use digital_test_runner::{DataRow, ExpectedValue, OutputResultEntry, OutputValue};
+    let text = std::fs::read_to_string(path).expect("read behaviours");
+    let sig = Signal::output("Q", 64);
+    let mut n = 0usize;
+    let mut mismatches = vec![];
+    let mut samples = vec![];
+    for (i, line) in text.lines().enumerate() {
+        if line.trim().is_empty() {
+            continue;
+        }
+        let b: J = serde_json::from_str(line).expect("behaviour JSON");
+        n += 1;
+        let ev = match Val::from_spec(&b["exp"]) {
+            Val::N(x) => ExpectedValue::Value(x),
+            Val::Z => ExpectedValue::Z,
+            Val::X => ExpectedValue::X,
+        };
+        let ov = match Val::from_spec(&b["out"]) {
+            Val::N(x) => OutputValue::Value(x),
+            Val::Z => OutputValue::Z,
+            Val::X => OutputValue::X,
+        };
+        let want = b["check"].as_bool().unwrap();
+        let want_checked = b["is_checked"].as_bool().unwrap();
+        let got = guarded(|| {
+            let entry = OutputResultEntry { signal: &sig, output: ov, expected: ev };
+            let row = DataRow { inputs: vec![], outputs: vec![entry.clone()], line: 1 };
+            let failing = row.failing_outputs().count();
+            (entry.check(), entry.is_checked(), ev.check(ov), ov.check(ev), failing)
+        });
+        if samples.len() < 3 && i % 97 == 0 {
+            samples.push(json!({"expected": b["exp"], "output": b["out"], "check": want}));
+        }
+        match got {
+            Err(p) => mismatches.push(json!({"behaviour": i + 1, "code": "panic", "step": 0, "text": line, "expected": want, "observed": p, "line": line})),
+            Ok((c, ic, c2, c3, f)) => {
+                if c != want || c2 != want || c3 != want || ic != want_checked || (f == 0) != want {
+                    mismatches.push(json!({"behaviour": i + 1, "code": "attr.verdict", "step": 0, "text": format!("expected={ev:?} output={ov:?}"),
+                        "expected": json!({"check": want, "is_checked": want_checked}), "observed": json!({"entry.check": c, "expected.check": c2, "output.check": c3, "is_checked": ic, "failing": f}), "line": line}));
+                }
+            }
+        }
+    }
+    json!({"behaviours": n, "distinct_nontrivial": n, "mismatches": mismatches, "samples": samples})
+}
